@@ -70,6 +70,9 @@ register('C19', 'TLA+ Ext spec (IEEE-style extended arithmetic) classifies every
 register('C15', 'TLA+ Api spec: chains over every base-term kind in every association enumerated by TLC, replayed with the four switch thresholds lowered (iterative algorithms) against the denotation; real-depth accumulations against closed forms',
          'TLC enumerates every pair of base-term kinds x operator and every 3-term chain in every association; with the thresholds of compiler, autodiff, expressions and analysis lowered from outside these small trees take the iterative algorithms, whose variables / degree / gradient / compiled value / compiled gradient are compared with the exact denotation (to which C01-C04 bind the recursive algorithms); accumulations of 399-900 and 1000-20000 terms with default thresholds are checked against closed forms and the vectorised build.',
          API_NOTE + ' The real-depth part is a differential test against closed forms (the spec contributes the switch rule and the denotation, not an enumeration).', 'DESIGN.md 3 (C15)')
+register('C08', 'TLA+ Analysis spec: LP(P) assembled by TLC from exact normal forms and solved with the same linprog method as the reference; optyx solve of TLC-enumerated linear problems, both orientations, repeated',
+         'The linear problems enumerated by TLC (many spellings, three senses, reflected comparisons, bounded / unbounded / infeasible instances) are solved through optyx with auto and an explicit HiGHS method, twice each, minimise and maximise, and compared in status and optimal objective with the matrix form TLC assembled from the exact normal form, solved by the same SciPy linprog method (identical arrays when extraction is right, so no solver noise).',
+         API_NOTE + ' HiGHS (SciPy linprog) is the trusted LP solver on both sides.', 'DESIGN.md 3 (C08)')
 
 ALL = ['C%02d' % i for i in range(1, 21)]
 
